@@ -153,6 +153,7 @@ package randomness
 //@     invariant Pi == real(ones(bits, 0, i)) && 0 <= ones(bits, 0, i) && ones(bits, 0, i) <= i
 //@     invariant ones(bits, 0, i) == 0 && !bits[i] ==> V_obs == 1
 //@     invariant ones(bits, 0, i) == i && bits[i] ==> V_obs == 1
+//@   assert before return: Pi == real(ones(bits, 0, n)) / real(n) && Qi == 1.0 - Pi
 
 // ---------------------------------------------------------------------------------------------
 // autocorrelation.go
